@@ -3,7 +3,7 @@
 # /repo's HEAD and run every quick check against it (tools/run_against.sh); every check must exit 0.
 cd /verif
 rc=0
-for n in ${@:-1 2 3 4 5 6 7 8 9}; do
+for n in ${@:-1 2 3 4 5 6 7 8 9 10 11}; do
   W=/tmp/robust_$n_$$; git -C /repo worktree add -q --detach $W HEAD || exit 2
   if git -C $W apply /verif/robust/refac_$n/patch.diff; then
     ./tools/run_against.sh $W | sed "s/^/refac_$n /" | tee /tmp/robust_$n.out
